@@ -95,7 +95,7 @@ theorem resolveViaOffsetTable_slot {U : UnitCtx} {c : DwarfCfg} {nm : Names} {se
   subst hsec
   have hp := structParseAtInt_uint (env := U.env) ho (offSize_pos hS) hsz
   simp only [resolveViaOffsetTable, hb, bind, Except.bind, Val.asInt, pyAddInt, pure, Except.pure, offsetSize_eq hS,
-    cast_slot, hU.structs, the_offset_eq, hp]
+    cast_slot, hU.structs.offset, hU.structs.addr, the_offset_eq, hp]
   rfl
 
 /-! ### `_translate_attr_value` against `resolve` -/
@@ -189,7 +189,7 @@ theorem translate_resolve {U : UnitCtx} {c : DwarfCfg} {nm : Names} {secs : Sect
                 have hp := structParseAtInt_uint (env := U.env) ho (offSize_pos hS) (hS.small so (Or.inr (Or.inr (Or.inr (Or.inl hso)))))
                 have hg := getString_stringAt (sec := U.secs.str) (by rw [hS.secsEq, hstr]) hlt (hS.small s (Or.inl hstr))
                 simp only [ha, hs', Bool.false_eq_true, if_false, if_true, hS.secsEq, hso, hB.strOffsets _ hb, bind,
-                  Except.bind, Val.asInt, pyAddInt, pure, Except.pure, offsetSize_eq hS, cast_slot, hU.structs,
+                  Except.bind, Val.asInt, pyAddInt, pure, Except.pure, offsetSize_eq hS, cast_slot, hU.structs.offset, hU.structs.addr,
                   the_offset_eq, hp]
                 rw [← hS.secsEq]; exact hg
       · rw [if_neg hs] at hres
@@ -215,7 +215,7 @@ theorem translate_resolve {U : UnitCtx} {c : DwarfCfg} {nm : Names} {secs : Sect
                 subst hres
                 have hp := structParseAtInt_uint (env := U.env) ho hS.aszPos (hS.small sec (Or.inr (Or.inr (Or.inl hsec))))
                 simp only [ha', if_true, hS.secsEq, hsec, hB.addr _ hb, bind, Except.bind, Val.asInt, pyAddInt, pure,
-                  Except.pure, hS.asz, cast_slot, hU.structs, the_addr_eq, hp]
+                  Except.pure, hS.asz, cast_slot, hU.structs.offset, hU.structs.addr, the_addr_eq, hp]
         · rw [if_neg ha] at hres
           have ha' : Model.C04.addrxForms.contains name = false := by
             have : Model.C04.addrxForms = Spec.C04.addrxForms := rfl
